@@ -121,7 +121,12 @@ class Conn(sqlite3.Connection):
 
 def _connect(*args, **kwargs):
     kwargs.setdefault('factory', Conn)
-    return _real_connect(*args, **kwargs)
+    con = _real_connect(*args, **kwargs)
+    try:
+        con._verif_path = os.fspath(args[0]) if args else kwargs.get('database')
+    except Exception:
+        pass
+    return con
 
 
 def _watched(path):
